@@ -104,6 +104,7 @@ VARIABLES
   cache,     \* url |-> "none" | "fresh" | "expired"   (persists across requests)
   ttl0,      \* vcl_fetch set beresp.ttl = 0s in this attempt
   uncache,   \* vcl_fetch set beresp.cacheable = false in this attempt
+  count,     \* shared rate counter: every request increments it once, on its first entry into vcl_recv
   young,     \* the object under `url` was stored during this request (its entry time is "now")
   pc,        \* "run" | "done" (request finished ok) | "err" (reported error) | "stop"
   lastK,     \* last KCover labels <<sub, beh>> (part of the VIEW)
@@ -112,15 +113,15 @@ VARIABLES
   cur,       \* record of the request in progress
   hist       \* completed request records
 
-vars == <<req, url, status, scope, viaPass, restarts, branch, didLookupHit, attempt, cache, ttl0, uncache, young, pc, lastK, defined, cur, hist>>
-View == <<req, url, status, scope, viaPass, restarts, branch, didLookupHit, attempt, cache, ttl0, uncache, young, pc, lastK, defined>>
+vars == <<req, url, status, scope, viaPass, restarts, branch, didLookupHit, attempt, cache, count, ttl0, uncache, young, pc, lastK, defined, cur, hist>>
+View == <<req, url, status, scope, viaPass, restarts, branch, didLookupHit, attempt, cache, count, ttl0, uncache, young, pc, lastK, defined>>
 
-NewCur(u, st, c) == [url |-> u, status |-> st, prog |-> <<>>, flows |-> <<>>, storedBefore |-> (c[u] = "fresh")]
+NewCur(u, st, c) == [url |-> u, status |-> st, prog |-> <<>>, flows |-> <<>>, storedBefore |-> (c[u] = "fresh"), seen |-> 0]
 
 Init ==
   /\ req = 1 /\ url \in Urls /\ status \in Statuses
   /\ scope = "recv" /\ viaPass = FALSE /\ restarts = 0 /\ branch = "none" /\ didLookupHit = FALSE /\ attempt = "none"
-  /\ cache = [u \in Urls |-> "none"] /\ ttl0 = FALSE /\ uncache = FALSE /\ young = FALSE
+  /\ cache = [u \in Urls |-> "none"] /\ count = 0 /\ ttl0 = FALSE /\ uncache = FALSE /\ young = FALSE
   /\ pc = "run" /\ lastK = <<>> /\ defined = Subs
   /\ cur = NewCur(url, status, cache) /\ hist = <<>>
 
@@ -157,10 +158,14 @@ StepGen(b, logged, c1, absentRecv) ==
   \* earlier request (the replayer pauses 2ms between requests), so the variant is offered only then
   /\ (b = "expire") => ~young
   /\ young' = (IF s = "fetch" /\ c1[url] = "fresh" THEN TRUE ELSE young)
+  \* the generated program increments the shared rate counter on the first entry into vcl_recv and logs the
+  \* count it got back: state that outlives a request persists (the n-th request served sees n)
+  /\ count' = (IF logged /\ s = "recv" /\ restarts = 0 THEN count + 1 ELSE count)
   /\ cur' = IF logged
             THEN [cur EXCEPT !.prog = Append(@, [sub |-> s, at |-> restarts, beh |-> b, vp |-> viaPass,
                                                  stored |-> (cache[url] = "fresh")]),
-                             !.flows = Append(@, s)]
+                             !.flows = Append(@, s),
+                             !.seen = (IF s = "recv" /\ restarts = 0 THEN count + 1 ELSE @)]
             ELSE cur
   /\ lastK' = PushK(lastK, <<s, b>>)
   /\ cache' = c1
@@ -197,7 +202,7 @@ FinalBranch(fl, i) ==
   ELSE IF fl[i] = "recv" THEN "none"
   ELSE FinalBranch(fl, i - 1)
 CurDone == [url |-> cur.url, status |-> cur.status, prog |-> cur.prog, flows |-> cur.flows,
-            storedBefore |-> cur.storedBefore, restarts |-> restarts,
+            storedBefore |-> cur.storedBefore, seen |-> cur.seen, restarts |-> restarts,
             outcome |-> (IF pc = "done" THEN "ok" ELSE "error"), branch |-> branch, cached |-> didLookupHit,
             storedAfter |-> (cache[cur.url] = "fresh"),
             finalBranch |-> FinalBranch(cur.flows, Len(cur.flows))]
@@ -210,7 +215,7 @@ NextRequest ==
   /\ ttl0' = FALSE /\ uncache' = FALSE /\ young' = FALSE /\ pc' = "run"
   /\ lastK' = PushK(lastK, <<"next", url'>>)
   /\ cur' = NewCur(url', status', cache)
-  /\ UNCHANGED <<cache, defined>>
+  /\ UNCHANGED <<cache, count, defined>>
 
 Next == (\E b \in Beh(scope) : Step(b)) \/ Skip \/ NextRequest
 Spec == Init /\ [][Next]_vars /\ WF_vars(Next)
@@ -239,6 +244,9 @@ EdgeOK(i) ==
       [] r = "END"       -> FALSE
       [] OTHER           -> n = r
 PathOK == \A i \in 1..(Len(cur.flows) - 1) : EdgeOK(i)
+
+\* the rate counter persists: the n-th request of a history sees n
+CounterPersists == (Len(cur.flows) > 0) => cur.seen = req
 
 \* never a hit on the first request to a fresh simulator
 FirstRequestMisses == (req = 1 /\ restarts = 0) => branch # "HIT"
@@ -279,7 +287,8 @@ Completed ==
   IF pc = "run" THEN
      LET r == Rest(scope, viaPass, cache, [flows |-> cur.flows, cache |-> cache, branch |-> branch, cached |-> didLookupHit], branch) IN
      [url |-> cur.url, status |-> cur.status, prog |-> cur.prog, flows |-> r.flows,
-      storedBefore |-> cur.storedBefore, restarts |-> restarts, outcome |-> "ok",
+      storedBefore |-> cur.storedBefore, seen |-> (IF Len(cur.flows) = 0 THEN count + 1 ELSE cur.seen),
+      restarts |-> restarts, outcome |-> "ok",
       branch |-> r.branch, cached |-> r.cached, storedAfter |-> (r.cache[cur.url] = "fresh"),
       finalBranch |-> FinalBranch(r.flows, Len(r.flows))]
   ELSE CurDone
